@@ -1,7 +1,6 @@
 package props
 
 import (
-	"bytes"
 	"encoding/json"
 	"fmt"
 	"os"
@@ -9,6 +8,7 @@ import (
 	"path/filepath"
 	"sort"
 	"strings"
+	"time"
 
 	"verif/mc/fw"
 )
@@ -76,6 +76,8 @@ type c20Outcome struct {
 }
 
 // c20Exec runs the binary under `ulimit -v`. The program and input travel through files.
+var c20Ctx *fw.Ctx
+
 func c20Exec(prog, input string) (stdout, stderr string, exit int) {
 	dir := filepath.Join(fw.WorkDir(), fmt.Sprintf("c20-%d", os.Getpid()))
 	os.MkdirAll(dir, 0o755)
@@ -83,20 +85,22 @@ func c20Exec(prog, input string) (stdout, stderr string, exit int) {
 	os.WriteFile(pf, []byte(prog), 0o644)
 	os.WriteFile(inf, []byte(input), 0o644)
 	cmd := exec.Command("/bin/sh", "-c", `ulimit -v 8000000; exec "$0" -f "$1" < "$2"`, fw.JqawkBin(), pf, inf)
-	var so, se bytes.Buffer
-	cmd.Stdout, cmd.Stderr = &so, &se
-	err := cmd.Run()
-	if err != nil {
-		exit = -1
-		if ee, ok := err.(*exec.ExitError); ok {
-			exit = ee.ExitCode()
-		}
+	// a case normally takes well under a second; two minutes only stop a run whose limit is gone and that would otherwise
+	// go on until memory is exhausted. Expiry is reported as its own class, never silently.
+	so, se, ex, timedOut := runChild(c20Ctx, cmd, "", 120*time.Second)
+	if timedOut {
+		return so, se + "\nverif: stopped after 120 s", -9
 	}
-	return so.String(), se.String(), exit
+	return so, se, ex
 }
+
 
 func c20Classify(stdout, stderr string, exit int, want string, jsonErr bool) c20Outcome {
 	o := c20Outcome{Stdout: clip(stdout), Stderr: clip(stderr), Exit: exit}
+	if exit == -9 {
+		o.Class, o.Why = "bad", "neither a value nor a refusal within 120 s (a case normally takes under a second): the step is not bounded"
+		return o
+	}
 	for _, bad := range []string{"panic:", "goroutine ", "fatal error", "SIGSEGV", "signal:"} {
 		if strings.Contains(stderr, bad) {
 			o.Class, o.Why = "bad", "the process died with a Go runtime crash"
@@ -304,6 +308,7 @@ func init() {
 		Assumptions: []string{"the binary's diagnostics contain 'runtime error' / 'could not parse' for the two error kinds", "ulimit -v 8 GB turns runaway allocation into a crash of the child instead of the sandbox"},
 		MaxWorkers: 14,
 		Run: func(c *fw.Ctx, u int) {
+			c20Ctx = c
 			defer os.RemoveAll(filepath.Join(fw.WorkDir(), fmt.Sprintf("c20-%d", os.Getpid())))
 			if u == nf*8 {
 				for _, s := range c20Singles() {
@@ -394,6 +399,7 @@ func init() {
 			if !unmarshal(raw, &s) {
 				return nil
 			}
+			c20Ctx = c
 			defer os.RemoveAll(filepath.Join(fw.WorkDir(), fmt.Sprintf("c20-%d", os.Getpid())))
 			switch s.Form {
 			case "single":
